@@ -1,6 +1,7 @@
 package jschema
 
 import (
+	stdJson "encoding/json"
 	"fmt"
 
 	schema "github.com/jsightapi/jsight-schema-core"
@@ -73,7 +74,17 @@ func FromRSchema(s *regex.RSchema) (*JSchema, error) {
 		return nil, errs.ErrRegexExample.F(err)
 	}
 
-	ss := New(s.File.Name(), fmt.Sprintf("%q // {regex: %q}", example, pattern))
+	// JSON string literals: Go's %q writes escapes (\a, \x01, \U000e0001) which JSight doesn't have.
+	jsonExample, err := stdJson.Marshal(string(example))
+	if err != nil {
+		return nil, errs.ErrRegexExample.F(err)
+	}
+	jsonPattern, err := stdJson.Marshal(pattern)
+	if err != nil {
+		return nil, errs.ErrRegexExample.F(err)
+	}
+
+	ss := New(s.File.Name(), fmt.Sprintf("%s // {regex: %s}", jsonExample, jsonPattern))
 	if err = ss.load(); err != nil {
 		return nil, errs.ErrLoadError.F(err)
 	}
